@@ -961,6 +961,7 @@ static int Run()
     }
     g &= need(counts["tc.background_mismatch_detected"] == 6, "not every doctored snapshot was caught by background validation");
     int rc = vx::finish();
-    if (!g && rc == 0) return 2;
+    // the gates describe a complete run; a run cut by the wall-clock deadline (exhaustive=false) is not a harness error
+    if (!g && rc == 0 && complete && !vx::deadline_reached()) return 2;
     return rc;
 }
